@@ -767,6 +767,70 @@ theorem C13_noargs {E β : Type} (ie : InEnc) (hie : ie ∈ inputEncodings) (ec 
   C13_pipeline_refines_direct ie hie ec unitCodec co (fun _ => result) () (fun _ => ⟨[], rfl, rfl⟩) hco hec
     (fun _ _ b hb => by simp [unitCodec] at hb; subst hb; rfl)
 
+/-! ## the websocket protocol -/
+
+theorem wsDecode_wsEncode {E γ : Type} (ec : ErrCodec E) (c : Codec γ) (hc : c.Lawful) (hec : ec.Lawful)
+    (item : Except E γ) : wsDecode ec c (wsEncode ec c item) = item := by
+  cases item with
+  | ok a =>
+    obtain ⟨b, h1, h2⟩ := hc a
+    simp [wsEncode, wsDecode, h1, h2]
+  | error e => simp [wsEncode, wsDecode, hec e]
+
+/-- **One websocket exchange = the direct call**: message and answer, `Ok` and `Err` alike -/
+theorem C13_ws_exchange {E α β : Type} (ec : ErrCodec E) (ci : Codec α) (co : Codec β)
+    (reply : Except E α → Except E β) (m : Except E α)
+    (hci : ci.Lawful) (hco : co.Lawful) (hec : ec.Lawful) :
+    wsExchange ec ci co reply m = reply m := by
+  unfold wsExchange
+  rw [wsDecode_wsEncode ec ci hci hec, wsDecode_wsEncode ec co hco hec]
+
+/-- a whole conversation -/
+theorem C13_ws_conversation {E α β : Type} (ec : ErrCodec E) (ci : Codec α) (co : Codec β)
+    (reply : Except E α → Except E β) (msgs : List (Except E α))
+    (hci : ci.Lawful) (hco : co.Lawful) (hec : ec.Lawful) :
+    msgs.map (wsExchange ec ci co reply) = msgs.map reply := by
+  induction msgs with
+  | nil => rfl
+  | cons m ms ih => simp [C13_ws_exchange ec ci co reply m hci hco hec, ih]
+
+theorem writer_send_fold (fs : List WireChunk) : ∀ w : Writer, w.queue = [] →
+    fs.foldl Writer.send w = ⟨[], w.wire ++ fs⟩ := by
+  induction fs with
+  | nil => intro w h; cases w; simp_all
+  | cons f rest ih =>
+    intro w h
+    simp only [List.foldl_cons]
+    rw [ih (w.send f) (by simp [Writer.send, Writer.flush])]
+    simp [Writer.send, Writer.feed, Writer.flush, h]
+
+/-- **Nothing stays in the client's write buffer**: after each `send` the queue is empty and every frame so
+far is on the wire, in order — so a caller that waits for the answer to message k before sending k+1 is
+never left waiting for a message that was not transmitted. -/
+theorem C13_ws_send_transmits (fs : List WireChunk) :
+    fs.foldl Writer.send {} = ⟨[], fs⟩ := by
+  simpa using writer_send_fold fs {} rfl
+
+/-- with `feed` alone the frame stays queued (what the forwarder must not do) -/
+example : (({} : Writer).feed (.ok [1])).wire = [] ∧ (({} : Writer).send (.ok [1])).wire = [.ok [1]] := by decide
+
+/-! ## body placement -/
+
+/-- what a decoder is given when the transport hands the body over as a sub-slice of a larger receive buffer:
+`pre.length` bytes into it (any offset from any alignment boundary), followed by anything -/
+def placedBody (pre post body : Bytes) : Bytes := ((pre ++ body ++ post).drop pre.length).take body.length
+
+theorem C13_body_placement (pre post body : Bytes) : placedBody pre post body = body := by
+  simp [placedBody, List.append_assoc]
+
+/-- **Decoding does not depend on where the body lies in memory.**  In the model — which is the specification
+here — a decoder is a function of the byte string, so this is immediate; the content is on the implementation
+side, where the harness delivers every body at every offset 0..15 from a 16-byte boundary (rkyv needs aligned
+storage for out-of-line 8/16-byte values and must copy). -/
+theorem C13_decode_placement_independent {α : Type} (c : Codec α) (pre post body : Bytes) :
+    c.dec (placedBody pre post body) = c.dec body := by
+  rw [C13_body_placement]
+
 /-! ## non-vacuity -/
 
 /-- a message full of separators and line breaks, through text and bytes -/
